@@ -142,7 +142,8 @@ func (f *faultStore) LoadOffset(ctx context.Context, id string) (eb.Offset, erro
 }
 
 type rsOp struct {
-	kind   int // 0 pub, 1 sub, 2 restart
+	kind   int // 0 pub, 1 sub, 2 restart, 3 two overlapping publishes then the process dies
+	val2   int
 	ty     int
 	val    int
 	id     int
@@ -162,6 +163,8 @@ func (o rsOp) term() T {
 			in = append(in, Tup(Nat(x[0]), Nat(x[1]), Nat(x[2])))
 		}
 		op = C("OSub", Nat(o.id), L(in...))
+	case 3:
+		op = C("OPub", Nat(o.ty), Nat(o.val)) // stand-in in the history; the pair itself travels in the input record
 	default:
 		op = C("ORestart")
 	}
@@ -187,6 +190,16 @@ type rsRun struct {
 	obs     []T
 	tags    map[string]bool
 	anomaly int
+	pair    *rsPair
+}
+
+// two publishers overlapping: while the live handler is handling v1 a second goroutine publishes v2 and gets as far as
+// the entry of its own delivery; then the first delivery finishes (its save sees the second append) and the process dies
+type rsPair struct {
+	ty, v1, v2 int
+	started    chan struct{}
+	release    chan struct{}
+	done       chan struct{}
 }
 
 func (r *rsRun) open() {
@@ -229,9 +242,17 @@ func (r *rsRun) publish(ty, val int) {
 
 func (r *rsRun) handler(id int, inner [][3]int, k *int) func(v int) {
 	return func(v int) {
+		if pr := r.pair; pr != nil && v == pr.v2 {
+			close(pr.started) // the second publisher has appended and reached its delivery
+			<-pr.release
+		}
 		p, _ := r.ctl.tick("deliver")
 		if !p {
 			return
+		}
+		if pr := r.pair; pr != nil && v == pr.v1 {
+			go func() { r.publish(pr.ty, pr.v2); close(pr.done) }()
+			<-pr.started
 		}
 		r.dels = append(r.dels, [2]int{id, v})
 		if k != nil {
@@ -318,6 +339,15 @@ func (r *rsRun) do(o rsOp) {
 	case 0:
 		r.ctl.begin(o.budget, o.failat)
 		r.publish(o.ty, o.val)
+	case 3:
+		r.ctl.begin(-1, -1)
+		r.pair = &rsPair{ty: o.ty, v1: o.val, v2: o.val2, started: make(chan struct{}), release: make(chan struct{}), done: make(chan struct{})}
+		r.publish(o.ty, o.val) // returns after the first delivery has saved its offset
+		r.ctl.dead = true      // the process dies here
+		close(r.pair.release)
+		<-r.pair.done
+		r.pair = nil
+		r.tags["overlapping-publishers"] = true
 	case 1:
 		if r.live[o.id] {
 			errFlag = true
@@ -512,7 +542,91 @@ func runResub(kind string, withInner bool, directed int) func(rng *rand.Rand, id
 	}
 }
 
+// resubrace: a prefix, the overlapping pair with the crash, a restart and a suffix
+func runResubRace(kind string) func(rng *rand.Rand, idx int, tier string) Case {
+	return func(rng *rand.Rand, idx int, tier string) Case {
+		c := func(o rsOp) rsOp { o.budget, o.failat = -1, -1; return o }
+		val := 1
+		var pre, post []rsOp
+		for i := rng.Intn(4); i > 0; i-- {
+			pre = append(pre, c(rsOp{kind: 0, ty: rng.Intn(2), val: val}))
+			val++
+		}
+		pre = append(pre, c(rsOp{kind: 1, id: 0}))
+		for i := rng.Intn(3); i > 0; i-- {
+			pre = append(pre, c(rsOp{kind: 0, ty: rng.Intn(2), val: val}))
+			val++
+		}
+		pair := rsOp{kind: 3, ty: 0, val: val, val2: val + 1, budget: -1, failat: -1}
+		val += 2
+		post = append(post, c(rsOp{kind: 2}), c(rsOp{kind: 1, id: 0}))
+		for i := rng.Intn(3); i > 0; i-- {
+			post = append(post, c(rsOp{kind: 0, ty: rng.Intn(2), val: val}))
+			val++
+		}
+		post = append(post, c(rsOp{kind: 2}))
+		for id := range rsTys {
+			post = append(post, c(rsOp{kind: 1, id: id}))
+		}
+		r := &rsRun{kind: kind, ctl: &tickCtl{budget: -1, failat: -1, kinds: map[string]int{}}, tags: map[string]bool{}}
+		if kind == "sqlite-file" {
+			dir := os.Getenv("VERIF_TMP")
+			if dir == "" {
+				dir = os.TempDir()
+			}
+			f, err := os.CreateTemp(dir, "vresubr-*.db")
+			if err != nil {
+				panic(err)
+			}
+			f.Close()
+			os.Remove(f.Name())
+			r.path = f.Name()
+			defer func() {
+				for _, p := range []string{r.path, r.path + "-wal", r.path + "-shm"} {
+					os.Remove(p)
+				}
+			}()
+		}
+		r.open()
+		var preT, postT []T
+		for _, o := range pre {
+			preT = append(preT, o.term())
+			r.do(o)
+		}
+		r.do(pair)
+		for _, o := range post {
+			postT = append(postT, o.term())
+			r.do(o)
+		}
+		var logT []T
+		evs, _, err := r.inner.Read(context.Background(), eb.OffsetOldest, 0)
+		if err != nil {
+			r.anomaly = 998
+		}
+		for _, e := range evs {
+			ty := 0
+			if e.Type == eb.EventType(rsB{}) {
+				ty = 1
+			}
+			var v struct{ V int }
+			if json.Unmarshal(e.Data, &v) != nil {
+				r.anomaly = 996
+			}
+			logT = append(logT, C("Build_ev", Nat(ty), Nat(v.V)))
+		}
+		if cl, ok := r.inner.(interface{ Close() error }); ok {
+			cl.Close()
+		}
+		return Case{Input: C("Build_rrinput", NatL(rsTys), L(preT...), Nat(pair.ty), Nat(pair.val), Nat(pair.val2), L(postT...)),
+			Obs:        C("Build_robs", L(r.obs...), L(logT...), Nat(r.anomaly)),
+			Tags:       []string{"overlapping-publishers", "store-" + kind},
+			Nontrivial: true}
+	}
+}
+
 func init() {
+	register(&Family{Name: "resubrace", Quick: 30, Thorough: 400, Directed: 0, Run: runResubRace("mem")})
+	register(&Family{Name: "resubracesqlite", Quick: 15, Thorough: 200, Directed: 0, Run: runResubRace("sqlite-file")})
 	register(&Family{Name: "resubmem", Quick: 300, Thorough: 6000, Directed: 3, Run: runResub("mem", false, 3)})
 	register(&Family{Name: "resubsqlite", Quick: 80, Thorough: 1500, Directed: 3, Run: runResub("sqlite-file", false, 3)})
 	register(&Family{Name: "resubsqlitemem", Quick: 80, Thorough: 1500, Directed: 3, Run: runResub("sqlite-mem", false, 3)})
